@@ -211,6 +211,7 @@ def run(ctx):
     ctx.ob('R34.3', 'whole-program-call', ok, 'executeAddonsWholeProgram runs the addons on the collected summaries on every path (%d exits) except the no-addon return' % len(exits)
            if ok else 'executeAddonsWholeProgram has a path that returns without running the addons on the collected summaries', '%s:%d' % (wp['file'], wp['line']))
     # R34.7: the per-file .ctu-info files in the build dir are the only store of the summaries of files that are not re-analysed: they must not be deleted
+    r34_8(ctx)
     ctx.rule('R34.7', 'the whole-program stage deletes only its own temporary file, never the per-file ctu-info files of the build dir')
     tainted = set()
     changed = True
@@ -240,3 +241,46 @@ def run(ctx):
                'executeAddonsWholeProgram schedules a per-file ctu-info file (getCtuInfoFileName(getDumpFileName(..)), kept in the build dir) for deletion at line %s: a later run that '
                'takes the file from the cache does not re-run the addon, so its summary is gone and the whole-program addon findings for it disappear' % x['l'],
                '%s:%s' % (wp['file'], x['l']))
+
+
+def r34_8(ctx):
+    """R34.8  the addon configuration that was parsed is the configuration that is used: a member of AddonInfo that parseAddonInfo assigns from the JSON
+    value (ctu, python, args, executable ...) is not assigned again - without reading its old value - by a function parseAddonInfo calls afterwards on the same
+    object (today: AddonInfo::getAddonInfo for the "script" entry).  Otherwise e.g. "ctu": true of a .json addon is lost and its summaries are never handed
+    to the whole-program stage."""
+    from .common.facts import strip_all, call_args
+    F = ctx.facts
+    ctx.rule('R34.8', 'members of AddonInfo parsed from the JSON configuration are not overwritten by the functions called after parsing')
+    cands = [g for g in F.find('parseAddonInfo') if F.body(g) is not None]
+    if len(cands) != 1:
+        raise AnalysisBroken('parseAddonInfo: %d definitions' % len(cands))
+    f = cands[0]
+    body = F.body(f)['body']
+    parsed = {}
+    for x in walk(body):
+        if x.get('k') == 'MemberExpr' and (x.get('n') or '').startswith('AddonInfo::') and x.get('dk') == 'Field' and (x.get('a') or 'r') not in ('r', 'a'):
+            parsed[x['n']] = max(parsed.get(x['n'], 0), x['l'])
+    ctx.floor('R34.8 members parsed from the JSON configuration', len(parsed), 3)
+    later = []
+    for x in walk(body):
+        if x.get('k') in ('CXXMemberCallExpr', 'CallExpr') and x.get('fid'):
+            for g in F.resolve(f, x['fid']):
+                if g['file'] == f['file'] and F.body(g) is not None and F.key(g) != F.key(f) and \
+                        (g['name'].startswith('AddonInfo::') or any('AddonInfo' in p['t'] and '&' in p['t'] and 'const' not in p['t'] for p in g['params'])):
+                    later.append((x, g))
+    ctx.floor('R34.8 calls on the AddonInfo after parsing', len(later), 1)
+    for member, pl in sorted(parsed.items()):
+        bad = []
+        for x, g in later:
+            if x['l'] < pl:
+                continue
+            for y in walk(F.body(g)['body']):
+                if y.get('k') in ('BinaryOperator', 'CXXOperatorCallExpr') and y.get('op') == '=':
+                    ops = call_args(y) if y.get('k') == 'CXXOperatorCallExpr' else y['c']
+                    if len(ops) == 2:
+                        l = strip_all(ops[0])
+                        if l.get('k') == 'MemberExpr' and l.get('n') == member and not any(z.get('k') == 'MemberExpr' and z.get('n') == member for z in walk(ops[1])):
+                            bad.append('%s line %s' % (g['name'], y['l']))
+        ctx.ob('R34.8', 'parsed-kept:%s' % member.split('::')[-1], not bad, ('%s keeps the value parsed from the JSON configuration' % member) if not bad else
+               ('%s is assigned from the JSON configuration in parseAddonInfo (line %s) and then assigned again, without reading the parsed value, by %s: the configured value is lost'
+                % (member, pl, ', '.join(bad))), '%s:%s' % (f['file'], pl))
